@@ -10,7 +10,7 @@ import traceback
 HERE = os.path.dirname(os.path.abspath(__file__))
 sys.path.insert(0, HERE)
 import common  # noqa: E402
-from common import Infra, LeanSide, Outcome  # noqa: E402
+from common import Infra, LeanSide, Outcome, say  # noqa: E402
 
 
 def main():
@@ -36,7 +36,7 @@ def main():
     try:
         lean.run()
     except Infra as e:
-        print("INFRA: %s" % e)
+        say("INFRA: %s" % e)
         sys.exit(2)
     if tier == "thorough" and lean.build_ok:
         extra = common.leanchecker(mod.LEAN_MODULES)
@@ -55,7 +55,7 @@ def main():
         mod.run(oc, tier=tier, seed=seed,
                 model_available=lean.build_ok, escalate=escalate)
     except Infra as e:
-        print("INFRA: %s" % e)
+        say("INFRA: %s" % e)
         sys.exit(2)
 
     # ---- step 3/4: verdict
@@ -80,7 +80,7 @@ def main():
             except Exception:
                 still = "witness replay raised: %s" % traceback.format_exc(limit=2)
         if still or f["id"] in known_seen:
-            print("KNOWN-FINDING: property=%s %s: %s" % (pid, f["id"], f["what"]))
+            say("KNOWN-FINDING: property=%s %s: %s" % (pid, f["id"], f["what"]))
             oc.known_hits.append((f["id"], f["what"]))
         else:
             oc.notes.append("listed finding %s no longer reproduces on its witness" % f["id"])
@@ -108,7 +108,7 @@ def main():
             try:
                 found = mod.search(seed=seed, tier=tier, hints=oc.x_disagreements)
             except Infra as e:
-                print("INFRA: %s" % e)
+                say("INFRA: %s" % e)
                 sys.exit(2)
         if found and not (found.get("finding") in known_ids):
             v = dict(found)
@@ -135,17 +135,17 @@ def main():
     except Exception:
         traceback.print_exc()
         sys.exit(2)
-    print("%s tier=%s seed=%d: theorems %d/%d, X cases %d (disagreements %d), oracle cases %d, violations %d, %.1fs"
+    say("%s tier=%s seed=%d: theorems %d/%d, X cases %d (disagreements %d), oracle cases %d, violations %d, %.1fs"
           % (pid, tier, seed, lean.discharged, len(lean.theorems), oc.x_cases, len(oc.x_disagreements),
              oc.oracle_cases, n_viol, wall))
     for k, t in lean.problems:
-        print("  lean problem [%s]: %s" % (k, t[:600]))
+        say("  lean problem [%s]: %s" % (k, t[:600]))
     for d in oc.x_disagreements[:3]:
-        print("  correspondence disagreement: %s" % json.dumps(d, default=str)[:600])
+        say("  correspondence disagreement: %s" % json.dumps(d, default=str)[:600])
     for l in lines:
-        print(l)
+        say(l)
     if exit_code == 0:
-        print("OK property=%s" % pid)
+        say("OK property=%s" % pid)
     sys.exit(exit_code)
 
 
